@@ -132,7 +132,14 @@ pub fn gen_msg(rng: &mut Rng, ctx: &mut Ctx, depth: u32) -> String {
     } else if r < 87 && ctx.insts < 10 {
         ctx.insts += 1;
         let code = if ctx.malformed && rng.chance(1, 10) { rng.pick(&[0u64, 9, 77]) } else { rng.range(1, ctx.codes.max(1)) };
-        let label = if ctx.malformed && rng.chance(1, 12) { "%".to_string() } else { format!("l{}", rng.below(50)) };
+        // labels are recorded exactly as supplied, surrounding whitespace included
+        let label = if ctx.malformed && rng.chance(1, 12) {
+            "%".to_string()
+        } else if rng.chance(1, 8) {
+            rng.pick(&["%20l1%20", "%09x", "x%0a", "%20%20", "%e2%80%83l"]).to_string()
+        } else {
+            format!("l{}", rng.below(50))
+        };
         let admin = match rng.below(4) {
             0 => "~".to_string(),
             1 => "u1".to_string(),
@@ -385,6 +392,41 @@ pub fn gen_wasm(rng: &mut Rng, thorough: bool) -> Vec<String> {
         observe(&mut ops);
         ops.push(format!("q-sup {}", d));
         ops.push("q-all u1".into());
+    }
+    if rng.chance(1, 8) {
+        // a reply that sets data AND dispatches a sub-message whose own reply sets data: the nested reply runs later, its data wins
+        let (m1, m2) = (rng.pick(&["always", "success"]), rng.pick(&["always", "success"]));
+        let inner = if rng.chance(1, 2) { "(send u2 1:d1)".to_string() } else { "(exec c2_1 ((data 0c)) -)".to_string() };
+        ctx.sub_id += 2;
+        ops.push("rawhash".into());
+        ops.push(format!(
+            "exec u1 (exec c1_0 ((data 01) (sub {} {} ((data 02) (sub {} {} ({}) {})) (send u2 1:d1))) -)",
+            ctx.sub_id - 1, m1, ctx.sub_id, m2, rng.pick(&["(data 03)", "(data 03) (attr k v)", ""]), inner
+        ));
+        observe(&mut ops);
+    }
+    if rng.chance(1, 25) {
+        // many FAILED smart queries, then good ones through App and from inside a contract: a query leaves nothing behind
+        for _ in 0..12 {
+            ops.push(format!("q-smart {} ((fail))", rng.pick(&["c1_0", "c2_1", "n1"])));
+        }
+        ops.push("q-smart c1_0 ((rd 6b))".into());
+        ops.push("q-smart c1_0 ((rd 6b))".into());
+        ops.push("rawhash".into());
+        ops.push("exec u1 (exec c2_1 ((qsmart c1_0 ((rd 6b))) (qsmart c1_0 ((fail))) (qsmart c1_0 ((rd 6b)))) -)".into());
+        observe(&mut ops);
+    }
+    if rng.chance(1, 30) {
+        // many transactions that fail inside a reply handler (rolled back each time), then one that is due a reply:
+        // nothing outside the storage remembers the failures
+        for _ in 0..66 {
+            ctx.sub_id += 1;
+            ops.push(format!("exec u1 (exec c1_0 ((sub {} success ((fail)) (send u2 1:d1))) -)", ctx.sub_id));
+        }
+        ctx.sub_id += 1;
+        ops.push("rawhash".into());
+        ops.push(format!("exec u1 (exec c1_0 ((sub {} success ((attr r 1)) (send u2 1:d1))) -)", ctx.sub_id));
+        observe(&mut ops);
     }
     let ntx = if thorough { rng.range(3, 9) } else { rng.range(2, 6) };
     let maxd = if thorough { 4 } else { 3 };
